@@ -613,12 +613,21 @@ func NewResponse(res *http.Response, withBody bool) (*Response, error) {
 
 		br, err := mv.BodyReader(messageview.Decode())
 		if err != nil {
-			return nil, err
+			// (reported by the read below)
+			br = ioutil.NopCloser(errReader{err})
 		}
 
 		body, err := ioutil.ReadAll(br)
 		if err != nil {
-			return nil, err
+			// The body is not what its Content-Encoding announces: the response
+			// is logged with the body as it is rather than not at all. The
+			// snapshot left an in-memory copy of it on the response.
+			log.Errorf("har: cannot decode response body: %v", err)
+			if body, err = ioutil.ReadAll(res.Body); err != nil {
+				return nil, err
+			}
+			res.Body.Close()
+			res.Body = ioutil.NopCloser(bytes.NewReader(body))
 		}
 
 		r.Content.Text = body
@@ -626,6 +635,10 @@ func NewResponse(res *http.Response, withBody bool) (*Response, error) {
 	}
 	return r, nil
 }
+
+type errReader struct{ err error }
+
+func (r errReader) Read([]byte) (int, error) { return 0, r.err }
 
 // Export returns the in-memory log.
 func (l *Logger) Export() *HAR {
